@@ -115,6 +115,8 @@ def finding_key(tr, rej):
     if name.startswith("RegressionTreeBasedAL"):
         return "%s|malformed-results" % name
     why = ",".join(rej["failed_clauses"]) or ("%s:%s" % (oe.get("ev", "end"), str(oe.get("exc", "")).split(":")[0]))
+    if tr["id"].endswith("/v3"):
+        name += "[clf:gamma=mean]"      # configuration class: classifier with a data-derived bandwidth
     return "%s|%s|%s|%s" % (name, kind, oe.get("name", "-"), why)
 
 
@@ -152,6 +154,12 @@ def main(tier="quick", seed=0):
             for n_, i in enumerate(rng.choice(len(pool), size=min(per_cost[e.cost], len(pool)), replace=False)):
                 variant = 0 if kind == "permute" else n_ % 2
                 jobs.append((e.name, pool[int(i)], int(rng.integers(0, 1000)), variant, kind))
+    # the three addressings with a kernel classifier whose bandwidth is derived from the training data
+    # (metric_dict={'gamma': 'mean'}, the default model of ProbabilisticAL): variant 3 of the registry models
+    for e in ENTRIES.values():
+        if e.model in ("clf", "clf_embed"):
+            for i in rng.choice(len(warm), size=min(6 if quick else 40, len(warm)), replace=False):
+                jobs.append((e.name, warm[int(i)], int(rng.integers(0, 1000)), 3, "modes"))
     traces = pmap(_job, jobs, chunksize=4)
     chk.count(sum(len(t["events"]) for t in traces))
     for t in traces:
